@@ -15,7 +15,7 @@ from fractions import Fraction as F
 from . import realise, spectab, world
 from .world import Failure, kind_of
 
-STEP_TIMEOUT = int(os.environ.get("VERIF_STEP_TIMEOUT", "120"))
+STEP_TIMEOUT = int(os.environ.get("VERIF_STEP_TIMEOUT", "600"))   # a hang, not a slow machine: 100x the slowest legitimate step
 
 
 class StepTimeout(BaseException):
